@@ -14,7 +14,7 @@ from ..probes import Item, canon
 ID = "C19"
 LEVEL = "exploration"
 ANCHORS = ["asynctools.py"]
-RULE = ("any_iter: item lists of length 0..6 x {plain, awaitable} outer x {list, iterator, async iterator} x {plain, "
+RULE = ("any_iter: item lists of length 0..6 x {plain, coroutine, custom awaitable, Future-like awaitable that also defines __iter__} outer x {list, iterator, async iterator} x {plain, "
         "awaitable} items (all 12 shapes, exhaustive) x every number of consumer steps, awaitables suspending 0..1 "
         "times: yielded items (identity) must be the plain list prefix and item awaitables must be awaited in order, "
         "each only when its item is requested; await_each: awaitable k is awaited during the consumer's k-th request "
@@ -31,7 +31,7 @@ MAX_SHARDS = 8
 def cases(tier, seed, shard, nshards):
     idx = 0
     for n in range(0, 7):
-        for outer_aw in (False, True):
+        for outer_aw in (False, True, "awaitobj", "future_like"):
             for cont in ("list", "iterator", "aiter"):
                 for item_aw in (False, True, "awaitobj", "mixed"):
                     for steps in range(0, n + 2):
@@ -115,7 +115,19 @@ def run_any_iter(case, stats):
             if case["susp"]:
                 await Suspend("outer", 1)
             return cont
-        arg = outer()
+
+        class OuterAwaitable:
+            """An awaitable that is not a coroutine."""
+
+            def __await__(self):
+                return outer().__await__()
+
+        class FutureLike(OuterAwaitable):
+            """Like asyncio.Future / Task: awaitable, and for legacy `yield from` also iterable."""
+
+            __iter__ = OuterAwaitable.__await__
+
+        arg = {True: outer, "awaitobj": OuterAwaitable, "future_like": FutureLike}[case["outer_aw"]]()
     else:
         arg = cont
     got = []
@@ -151,7 +163,7 @@ def run_any_iter(case, stats):
         for c in cont:
             if hasattr(c, "close") and hasattr(c, "cr_frame"):
                 c.close()
-    if case["outer_aw"] and case["steps"] == 0:
+    if case["outer_aw"] is True and case["steps"] == 0:
         arg.close()
     if CTX.foreign:
         viols.append({"key": "any_iter/foreign-suspension", "msg": CTX.foreign[0]})
